@@ -9,7 +9,9 @@ import time
 from .framework import VERIF
 
 COQ = os.path.join(VERIF, "coq")
-GEN = os.path.join(COQ, "Gen")
+# PV_GEN_DIR: scratch directory for generated case files (lets several checks of one property run side by side
+# against different scratch worktrees in the seeded-change tools); default coq/Gen
+GEN = os.environ.get("PV_GEN_DIR") or os.path.join(COQ, "Gen")
 
 # axioms the standard library itself declares; anything else is rejected
 STDLIB_AXIOMS = {
@@ -141,7 +143,15 @@ def check_property_file(ctx, fname=None):
     src = _strip_comments(open(fname).read())
     names = [m.group(2) for m in THM.finditer(src)]
     n_print = len(re.findall(r"Print\s+Assumptions", src))
-    rc, out = coqc(fname)
+    # recompiling the property file rewrites Properties/<pid>.vo in place: serialise it with the build lock so that a
+    # second check running side by side (seeded-change tools) never reads a half-written file
+    lock = open(os.path.join(VERIF, ".lock"), "w")
+    fcntl.flock(lock, fcntl.LOCK_EX)
+    try:
+        rc, out = coqc(fname)
+    finally:
+        fcntl.flock(lock, fcntl.LOCK_UN)
+        lock.close()
     if rc != 0:
         for n in names:
             ctx.obligation(n, False, out[-1500:])
